@@ -11,7 +11,7 @@ def register(claim, not_yet):
           'periodization roll + zero-padded correlation + single fold) equals the PyWavelets formula in modes zero, symmetric, periodic, in reflect exactly when torch accepts the pad (and raises otherwise), '
           'and in periodization for every N (odd included) with L <= N + N%2 (partial: the proof forces that bound, whose complement is the known finding C01-periodization-short, witnessed by decide); '
           'one level of the 2-D transform on a channel equals pywt.dwt2 with bands (cH,cV,cD)=(LH,HL,HH); the J-level modules equal wavedec / wavedec2 by induction on J; the C-channel grouped '
-          'convolution applies the one-channel operator to every channel. All of it is also run through the exact correspondence (afb1d, AFB1D, AFB2D, DWT1DForward, DWTForward) and the '
+          'convolution applies the one-channel operator to every channel, in 1-D and in 2-D: for every channel count C and every J, every channel of every band returned by DWT1DForward / DWTForward is wavedec / wavedec2 of that channel alone (DWT1DForward_multi, C01M.DWTForward_multi). All of it is also run through the exact correspondence (afb1d, AFB1D, AFB2D, DWT1DForward, DWTForward) and the '
           'pywt oracle on integer and all named wavelets.' + TIE + BRK,
           'Lean 4 refinement theorems (impl-model = pywt spec) + exact model/code correspondence + pywt oracle search', 'DESIGN.md §4 C01')
     claim('C02',
